@@ -108,6 +108,16 @@ CLAIMS = {
              "vs their constructed normal forms evaluated in Lean on an integer grid; Converter<SafeInt>::negate/getValue "
              "harness vs the mirror.",
         design_ref="5 C27"),
+    "C16": dict(
+        technique="Lean 4 proof (decimal literal conversion exact for all digit lists) tied by exhaustive short-string differential runs against StringConv.h and a print/re-read round trip",
+        text="Theorem s2rDec_exact: for every sign, integer part and fraction part (any length, leading/trailing zeros) the "
+             "model of stringToRational returns the exact decimal value; every string of the lexer's decimal language is "
+             "accepted. Tie: isIntString, isRealString and stringToRational of the real header vs the Lean model on ALL strings "
+             "up to length 6 (quick) / 8 (thorough) over 0159./- plus long random literals, under ASan/UBSan; every string "
+             "isRealString accepts must convert to its exact value (independent exact oracle); numeric values printed by "
+             "get-value are re-read and compared. Partial: the automata and the rejection of malformed strings are tied "
+             "exhaustively, not proved; fraction strings with a decimal part are not compared.",
+        design_ref="5 C16"),
 }
 
 PENDING = "not yet built in this round; design in DESIGN.md section 5, construction order in section 10"
